@@ -384,8 +384,38 @@ func c04BufEval(cs *core.Case) (bool, string, string) {
 	return true, "", ""
 }
 
+// c04ReuseEval (part R): the caller re-uses ONE buffer for successive inputs
+// (a fixed-size read buffer). Ints = [i, j, N]: the first N bytes of witness i
+// are loaded into the buffer and detected, then the first N bytes of witness j;
+// the second answer must be what a fresh slice with the same bytes gets.
+var c04ReuseBuf = make([]byte, 4096)
+
+func c04ReuseEval(cs *core.Case) (bool, string, string) {
+	W := corpus(c04ctx)
+	i, j, n := cs.Ints[0], cs.Ints[1], cs.Ints[2]
+	if len(W[i].Data) < n || len(W[j].Data) < n {
+		return true, "skip", ""
+	}
+	setLimit(0)
+	want := chainStr(mimetype.Detect(append([]byte{}, W[j].Data[:n]...)))
+	buf := c04ReuseBuf[:n:n]
+	copy(buf, W[i].Data[:n])
+	mimetype.Detect(buf)
+	copy(buf, W[j].Data[:n])
+	got := chainStr(mimetype.Detect(buf))
+	if got != want {
+		return false, "C04/reused-buffer-changes-answer", fmt.Sprintf("a %d-byte buffer first held the head of %q and was detected, then the head of %q: Detect reports %s; the same bytes in a fresh slice give %s", n, W[i].Name, W[j].Name, got, want)
+	}
+	again := chainStr(mimetype.Detect(buf))
+	if again != got {
+		return false, "C04/repeat-differs", fmt.Sprintf("repeating the detection of the head of %q in the same buffer: %s then %s", W[j].Name, got, again)
+	}
+	return true, "", ""
+}
+
 func c04Setup(c *core.Ctx) {
 	c04ctx = c
+	c.Register("c04reuse", c04ReuseEval)
 	c.Register("c04pair", c04PairEval)
 	c.Register("c04", c04Eval)
 	c.Register("c04beyond", c04BeyondEval)
@@ -557,6 +587,31 @@ func c04Run(c *core.Ctx) {
 			c.Check(buf)
 		}
 		c.SampleCase("beyond-limit", bc)
+	}
+	// Part R: one caller buffer re-used for the heads of all ordered witness pairs
+	{
+		W := corpus(c)
+		rc := &core.Case{Kind: "c04reuse", Ints: []int{0, 0, 0}}
+		var pairs uint64
+		for j := range W {
+			if !c.Next() || c.Expired() {
+				continue
+			}
+			for i := range W {
+				for _, n := range []int{8, 24, 64} {
+					if len(W[i].Data) < n || len(W[j].Data) < n {
+						continue
+					}
+					rc.Ints[0], rc.Ints[1], rc.Ints[2] = i, j, n
+					c.R.Evals++
+					c.R.Transitions += 3
+					pairs++
+					c.Check(rc)
+				}
+			}
+		}
+		c.Note("R.reused-buffer-pairs", pairs)
+		c.SampleCase("R:reused-caller-buffer", rc)
 	}
 	for _, w := range corpus(c) {
 		if len(w.Data) > 4096 || !c.Next() || c.Expired() {
